@@ -66,12 +66,12 @@ def make_datasets(chk, quick, root):
     out = []
     ntest = 24 if quick else 160
     nexc = 4 if quick else 20
-    shapes = ["flat", "peaked", "steep", "phase", "zerotail"]
+    shapes = ["flat", "peaked", "steep", "phase", "zerotail", "holes"]
     for i in range(ntest + nexc):
         layout = "test" if i < ntest else "exceeds"
         base = os.path.join(root, "ds%03d" % i)
         n = [2, 3, 8, 96][i] if i < 4 else None
-        t = gadata.synth(base, "Test", "g0", rng, n=n, shape=shapes[i % 5] if layout == "test" else rng.choice(["flat", "phase"]), layout=layout)
+        t = gadata.synth(base, "Test", "g0", rng, n=n, shape=shapes[i % 6] if layout == "test" else rng.choice(["flat", "phase"]), layout=layout)
         out.append((base, "Test", "g0", 1 if layout == "test" else 0, t))
     # the four real names through the generator-level layout
     for nuc in ("Se82", "Nd150"):
@@ -169,7 +169,7 @@ def main():
         chk.coverage.update({
             "evaluations": tot_s + tot_e + stats["values"],
             "distinct_nontrivial": tot_c,
-            "rule": "synthetic joint p.d.f. tables (n = 2..96; flat, peaked, steep exponentials giving long runs of 9s, 2nu-like phase space, zero tails) are "
+            "rule": "synthetic joint p.d.f. tables (n = 2..96; flat, peaked, steep exponentials giving long runs of 9s, 2nu-like phase space, zero tails, interior bands of zero density giving flat runs inside the cumulative rows) are "
                     "encoded with the repository's own mkocdfdata.py; decoded values (load_optimized_cdf_array) are compared with the encoder's exact "
                     "normalised c.d.f. within the encoding precision; (u1,u2) on a lattice of cell boundaries (value, nextafter down/up), tails and random "
                     "pairs: e1,e2 >= 0, inside the selected table cell, e1+e2 <= dataset maximum, monotone in each deviate; shoot() on a tape == replayed "
